@@ -674,7 +674,7 @@ func checkC05(r *core.Run) {
 func checkC06(r *core.Run) {
 	depth := 4
 	if r.Thorough() {
-		depth = 6
+		depth = 5 // two scenarios with 20 and 22 calls: depth 6 does not finish within the thorough budget
 	}
 	histRun(r, c06Clauses, []*hist.Scenario{c06Scenario(), c06ContextScenario()}, func(sc *hist.Scenario) []hist.Op {
 		if sc.Name == "context-dependent-callee" {
